@@ -202,13 +202,13 @@ func main() {
 							continue
 						}
 						cfg := hamt.Config{Kind: kind, Hasher: hamt.HasherByName(hn), Ballast: b, Active: act, Values: []int{1, 2}, Start: start, Model: true}
-						r.Seq("search/"+cfg.Name(), func(x *mc.X) { hamt.Search(x, cfg) })
+						r.Seq("search/"+cfg.Name(), func(x *mc.X) { hamt.Search(x, cfg) }).NoShard = true
 					}
 				}
 			}
 			for _, b := range []int{0, 3} {
 				cfg := hamt.Config{Kind: kind, Hasher: hamt.HasherByName("identity"), Ballast: b, Active: act, Values: []int{1, 2}, Start: "zero", Model: true}
-				r.Seq("search/"+cfg.Name(), func(x *mc.X) { hamt.Search(x, cfg) })
+				r.Seq("search/"+cfg.Name(), func(x *mc.X) { hamt.Search(x, cfg) }).NoShard = true
 			}
 		}
 		depth := 4
